@@ -231,3 +231,23 @@ prop(id="C09", vfile="Properties/C09.v",
                                  "source tie (footprint) decides the absence of clock/randomness/goroutine/environment reads"],
      partial="gas accounting and events are compared between replicas on the implementation only (twin); the Go runtime, the SDK stores and "
              "protobuf marshalling are trusted to be deterministic")
+
+
+UPGRADE_RULE = ("upgrade profile: a chain populated by the aol / pnft / did generators; in a random block the plan of the last entry of app.Upgrades "
+                "is scheduled for the next height; the node is stopped never / before / between scheduling and the upgrade block (with "
+                "upgrade-info.json on disk so that the upgrade store loader is installed) / inside the upgrade block / after it; the model "
+                "answers the same history (an upgrade block has no custom-module effect) and the dumps of the three custom stores after the "
+                "upgrade are compared. On the implementation alone: BeginBlock at the plan height must not panic, the plan must be marked done "
+                "at that height, the recorded module version map must equal the binary's, the custom stores must be byte-identical across that "
+                "BeginBlock, restarts must resume with the committed application hash, a never-restarted twin must agree on every hash, and "
+                "an independent re-implementation of the store accounting must find no unaccounted mounted store and no missing handler")
+prop(id="C19", vfile="Properties/C19.v",
+     runs=lambda tier, seed: [dict(profile="upgrade", seed=seed, n=_sizes(tier, 25, 1500), extra=["-blocks", "8"])],
+     rule=UPGRADE_RULE, assumptions=[
+         "baseline (the stores of the release preceding the first descriptor: SDK 0.42 module set + aol, did, burn, token, wasm) is the one "
+         "input that is not in the repository; it is written in Upgrade/Repo.v and, independently, in harness/upgrade.go",
+         "rootmulti.loadVersion / UpgradeStoreLoader (cosmos-sdk v0.47.12) are modelled from their source (Upgrade/Model.v), not verified",
+         "the populated pre-upgrade state is produced by the current binary (the previous release's binary is not available offline), so "
+         "RunMigrations finds every module at its current consensus version"],
+     partial="the dynamic half (no halt, versions recorded, data unchanged, restart equivalence on the real store) is decided by running the real "
+             "upgrade on generated populated states, not proved; migrations from genuinely older module versions cannot be exercised offline")
